@@ -7,6 +7,8 @@
 (* transformer; TLC checks every reported list against Transform.tla       *)
 (* (anchoring order by time, then number; published operations             *)
 (* de-duplicated by canonical reference, the first in that order kept).    *)
+(* Random lists of up to 5 validated keys are transformed as well, and the *)
+(* verification methods, relationship sets and contexts checked.           *)
 (***************************************************************************)
 EXTENDS Transform, Json, TLCExt
 
@@ -33,7 +35,35 @@ TraceOps ==
           /\ e.reported = Slots(out)
     /\ UNCHANGED cs
 
-TraceNext == TraceOps
+\* a list of validated keys (up to 5, any types / purposes / material) through the real transformer: the verification
+\* methods in document order with their type and the class of their material, the relationship SETS, the context SET
+ToSetOf(s) == {s[i] : i \in 1..Len(s)}
+TraceKeys ==
+    /\ IsEvent("keys")
+    /\ LET e == TraceLog[l]
+           keys == [i \in 1..Len(e.keys) |-> Key(e.keys[i].id, e.keys[i].type, ToSetOf(e.keys[i].pp), e.keys[i].mat)]
+           vms == VMs(keys, e.base)
+       IN /\ \A i \in 1..Len(keys) : ValidKey(keys[i])
+          /\ e.bad = ""
+          \* every key exactly once (whatever the order: the statement does not fix it), with its type, controller and material
+          /\ Len(e.vms) = Len(vms)
+          /\ \A i \in 1..Len(vms) :
+                \E j \in 1..Len(e.vms) :
+                    /\ e.vms[j].id = vms[i].id.id /\ e.vms[j].relative = vms[i].id.relative
+                    /\ e.vms[j].type = vms[i].type /\ e.vms[j].controller /\ e.vms[j].material = vms[i].material
+          /\ \A i, j \in 1..Len(e.vms) : e.vms[i].id = e.vms[j].id => i = j
+          \* referenced from exactly the relationships its purposes name
+          /\ \A pi \in 1..Len(Purposes) :
+                LET want == Rel(keys, Purposes[pi], e.base)
+                    got == e.rels[pi]
+                IN /\ Len(got) = Len(want)
+                   /\ {got[i] : i \in 1..Len(got)} = {want[i].id : i \in 1..Len(want)}
+          \* the DID context, @base if asked for, one context per key type used - each once
+          /\ Len(e.contexts) = Len(Contexts(keys, e.base, FALSE))
+          /\ ToSetOf(e.contexts) = ToSetOf(Contexts(keys, e.base, FALSE))
+    /\ UNCHANGED cs
+
+TraceNext == TraceOps \/ TraceKeys
 TraceSpec == TraceInit /\ [][TraceNext]_tvars
 
 HighWater == TLCSet(1, IF l > TLCGet(1) THEN l ELSE TLCGet(1))
